@@ -319,6 +319,11 @@ def make_group(rng, n=None, k=None):
     k = k or int(rng.integers(1, 9))
     pts = gen.points(rng, n, int(rng.integers(2, 4)))
     masks = gen.label_masks(rng, n, k)
+    if rng.random() < 0.5:
+        # label names that contain one another (left_eye / left_eyebrow ...), in arbitrary order
+        nested = ["eye", "left_eye", "left_eyebrow", "brow", "eyebrow", "e", "left", "left_eye_2"]
+        names = [nested[j] for j in rng.permutation(len(nested))[:len(masks)]]
+        masks = OrderedDict(zip(names, masks.values()))
     A = gen.adjacency(n, gen.random_undirected_edges(rng, n), True)
     how = int(rng.integers(0, 3))
     if how == 0:
@@ -353,6 +358,10 @@ def w_groups(ctx, rng, i):
         g.with_labels(perm[:2][::-1])
         g.without_labels(perm[: k - 1])
     g.with_labels(names[0])
+    for l in names:                     # the documented single-string forms
+        if k >= 2:
+            g.without_labels(l)
+        g.with_labels(l)
     for bad in (["no such label"], "nope"):
         for op in ("with_labels", "without_labels"):
             try:
@@ -428,8 +437,17 @@ def w_labellers(ctx, rng, i):
         return ms.LabelledPointUndirectedGraph(p, gen.adjacency(len(p), gen.random_undirected_edges(rng, len(p), 0.1), True), gen.label_masks(rng, len(p), 3))
     x = wrap(pts)
     dg = digest(x)
-    out = f(x)
     ctx.tap("labeller", "calls"); ctx.tap("labeller", "checked")
+    try:
+        out = f(x)
+    except Exception as e:
+        ctx.fail("labeller_raised_on_input_of_the_right_size", cls=name, mech="%s:%dD:%s" % (kind, d, type(e).__name__), error=repr(e)[:200])
+        ctx.count_case(("labeller", name, kind, "raised"), nontrivial=False)
+        return
+    if out.n_dims != d or out.points.ndim != 2:
+        ctx.fail("labeller_changed_the_dimensionality", cls=name, mech="%s:%dD" % (kind, d), got=list(out.points.shape))
+        ctx.count_case(("labeller", name, kind, "garbled"), nontrivial=False)
+        return
     if digest(x) != dg:
         ctx.fail("labeller_modified_its_input", cls=name, mech=kind)
     # output points are distinct input points
